@@ -664,6 +664,26 @@ def match(df, cands, prefer):
     return list(hits[0])
 
 
+def explain(df, cands, prefer):
+    """Words for a returned table that equals NO candidate: how it differs from the expected one (column set first)."""
+    t = cands.get(tuple(prefer))
+    if t is None or not hasattr(df, 'columns'):
+        return 'equals no per-signal reference table'
+    a, b = list(df.columns), list(t.columns)
+    if a != b:
+        extra, missing = [x for x in a if x not in b], [x for x in b if x not in a]
+        if extra or missing:
+            return ('its columns differ from the reference computed with the same return_samples: %d extra %s, %d missing %s'
+                    % (len(extra), extra[:4], len(missing), missing[:4]))
+        return 'its columns are those of the reference in another order'
+    if len(df) != len(t):
+        return 'it has %d rows, the reference %d' % (len(df), len(t))
+    for col in a:
+        if not same_table(df[[col]], t[[col]]):
+            return 'column %r differs from the reference' % col
+    return 'differs from the reference'
+
+
 def coq_triples(m):
     return coqio.lst([coqio.lst(['(%d, %d, %d)%%nat' % tuple(t) for t in row]) if row else 'nil' for row in m]) if m else 'nil'
 
